@@ -90,4 +90,6 @@ func VerifH_serve() {
 	vnd.RunGoroutines()
 	vnd.Assert(seenLen == readN, "C16 the handler goroutine is given exactly the received datagram")
 	vnd.Assert(seenLen == readN, "C13 what the handler chain is run on is the datagram as received (all of it)")
+	vnd.Assert(seenLen == readN, "C11 what is parsed and answered is the datagram as received, not bytes an earlier datagram left in the buffer")
+	vnd.Assert(seenLen == readN, "C12 what is parsed and answered is the datagram as received, not bytes an earlier datagram left in the buffer")
 }
